@@ -238,6 +238,8 @@ func execC13(c *vf.Ctx, d *vf.Driver, cs c13Case) {
 		execC13Sign(c, d, cs)
 	case "verify":
 		execC13Verify(c, d, cs)
+	case "shape":
+		execC13Shape(c, cs)
 	}
 }
 
@@ -251,7 +253,7 @@ func c13SetS(sig []byte, s *big.Int) []byte {
 }
 
 var c13SmallOrder = []grpEdPt{
-	{big.NewInt(0), big.NewInt(1)}, // order 1
+	{big.NewInt(0), big.NewInt(1)},                           // order 1
 	{big.NewInt(0), new(big.Int).Sub(grpEdP, big.NewInt(1))}, // order 2
 	{big.NewInt(1), big.NewInt(0)},                           // order 4
 	{new(big.Int).Sub(grpEdP, big.NewInt(1)), big.NewInt(0)}, // order 4
@@ -434,6 +436,8 @@ func runC13(c *vf.Ctx) {
 				c.Count("spec:rfc-context-vector")
 			}
 		}
+		// argument shapes: sub-slices with spare capacity, shared buffers, overlapping arguments (pure Go, fast)
+		runC13Shapes(c, r, c.Budget(6, 60))
 		// full model: keygen, sign, verify chains
 		for i := 0; i < nFull && !c.Failed(); i++ {
 			seed := r.Bytes(57)
